@@ -149,8 +149,14 @@ func (w *Worker) callFunction(fn *ssa.Function, args []Val, bind []Val) Val {
 			fr.regs[i] = args[i]
 		}
 	}
+	owner := w.curT
 	w.stack = append(w.stack, fr)
-	defer func() { w.stack = w.stack[:len(w.stack)-1] }()
+	defer func() {
+		// a thread that is being killed unwinds its Go stack while another thread owns w.stack
+		if w.curT == owner && len(w.stack) > 0 {
+			w.stack = w.stack[:len(w.stack)-1]
+		}
+	}()
 	return w.run(fr)
 }
 
